@@ -26,7 +26,12 @@ fn corpus_case(r: &mut Prng) -> Case {
             c
         }
     };
-    gen::generate(r, &cfg)
+    let mut c = gen::generate(r, &cfg);
+    if r.chance(60, 1000) {
+        // the same statement text in two scopes (a row read as a counter here and as an output there)
+        gen::plant_scope_twins(&mut c, r);
+    }
+    c
 }
 
 // ----------------------------------------------------------------------------------- C09
